@@ -581,40 +581,29 @@ def gen_md_exprs(rng):
 
 # ----------------------------------------------------------------------------
 # executor (runs in a forked child)
-class MemFS(object):
-    def __init__(self, files):
-        self.files = dict(files)
-        self.written = []
-
-    def open(self, name, mode='r', *a, **kw):
-        fs = self
-        if 'r' in mode:
-            if name not in self.files:
-                raise IOError(2, 'No such file or directory', name)
-            data = self.files[name]
-            return io.BytesIO(data) if 'b' in mode else io.StringIO(data.decode('latin-1'))
-
-        class W(io.BytesIO):
-            def close(self_):
-                fs.files[name] = (fs.files.get(name, b'') if 'a' in mode else b'') + self_.getvalue()
-                if name not in fs.written:
-                    fs.written.append(name)
-                io.BytesIO.close(self_)
-        return W()
-
-
 def run_cli(argv, files):
-    """pybufrkit.main() in-process on an in-memory file system -> dict"""
+    """pybufrkit.main() in-process on REAL files in a scratch directory of its own (current directory for
+    the duration of the call; relative names, so nothing in the trace depends on where it lives) -> dict.
+    Real files rather than an in-memory stand-in for `open`: an implementation is free to read its input
+    with mmap or os-level calls."""
+    import os
+    import shutil
+    import tempfile
     import pybufrkit
-    import pybufrkit.commands as commands
     from sim.observe import exc_info
-    fs = MemFS(files)
-    commands.open = fs.open
+    tmp = tempfile.mkdtemp(prefix='verif-cli-')
+    cwd = os.getcwd()
     old = sys.argv, sys.stdout, sys.stderr
-    sys.argv = ['pybufrkit'] + list(argv)
-    sys.stdout, sys.stderr = io.StringIO(), io.StringIO()
     exc = None
+    out = err = ''
+    written = []
     try:
+        for name, data in files.items():
+            with open(os.path.join(tmp, name), 'wb') as f:
+                f.write(data)
+        os.chdir(tmp)
+        sys.argv = ['pybufrkit'] + list(argv)
+        sys.stdout, sys.stderr = io.StringIO(), io.StringIO()
         try:
             pybufrkit.main()
         except SystemExit as e:
@@ -623,15 +612,24 @@ def run_cli(argv, files):
             raise
         except BaseException as e:
             exc = exc_info(e)
+            exc['msg'] = exc['msg'].replace(tmp, '<tmp>')
         out, err = sys.stdout.getvalue(), sys.stderr.getvalue()
+        # files created or changed by the command, in the order `split` numbers them
+        names = [n for n in os.listdir(tmp)]
+
+        def order(n):
+            head, _, tail = n.rpartition('.')
+            return (head, int(tail)) if tail.isdigit() else (n, -1)
+        for n in sorted(names, key=order):
+            with open(os.path.join(tmp, n), 'rb') as f:
+                data = f.read()
+            if n not in files or files[n] != data:
+                written.append([n, _h(data), len(data)])
     finally:
         sys.argv, sys.stdout, sys.stderr = old
-        try:
-            del commands.open
-        except AttributeError:
-            pass
-    return {'stdout': out, 'stderr': err, 'exc': exc,
-            'written': [[n, _h(fs.files[n]), len(fs.files[n])] for n in fs.written]}
+        os.chdir(cwd)
+        shutil.rmtree(tmp, ignore_errors=True)
+    return {'stdout': out.replace(tmp, '<tmp>'), 'stderr': err.replace(tmp, '<tmp>'), 'exc': exc, 'written': written}
 
 
 def execute(plan):
